@@ -9,6 +9,10 @@ CLAIMS = {
          'CommonLoop deferred tasks under CBMC contracts (one thread visible): id spaces (even/odd, never 0) over the full 64-bit domain; cancel routed by parity with the cross-thread queue only touched under lock_; removal keeps the other tasks in submission order; runInLoop/runNext append at the back under the returned id and leave a wake-up committed; batch taken and wake-up acknowledged in one critical section; each popped callable invoked exactly once outside the lock.',
          'Trusted: printer, CBMC, container/function/string models, callback stub (havoc under the queue invariant), eventfd as ghost token counter. Queue-content targets are bounded to 64 items. Interleavings, thread identity and shutdown draining are not decided.',
          'CBMC function/loop contracts with ghost lock state on mechanically extracted C', '6 C01'),
+ 'C05': ('other',
+         'ThreadPool under CBMC contracts (one thread visible): guarded-by obligations (stop flag, idle counter only under the pool mutex), worker loop (idle count restored on every path, stop flag checked after each wake-up, task body exactly once outside the lock between register/unregister, completion callback posted after the body), initialize (flag cleared before workers exist), priority-first FIFO pop and cancel over all priority levels (bounded domain).',
+         'Trusted: printer, CBMC, opaque Cabinet/ObjectPool/std::set/std::thread stubs, one-thread view. Interleavings, liveness and WorkThread are not decided; queue targets bounded to 16 tasks per level.',
+         'CBMC function/loop contracts with ghost lock state and guarded-by obligations on mechanically extracted C', '6 C05'),
  'C06': ('other',
          'BufferedFd::send and onWriteCallback under CBMC contracts with a ghost byte stream: wire ++ send queue == accepted bytes for every result of write(2) (short, zero, EAGAIN), send-complete only on an empty queue, write event armed whenever Running with queued data (also for data queued before enable and for re-entrant callbacks); enable/disable state contracts. Proved modularly against the util::Buffer and util::Fd contracts, which are re-checked in the same run.',
          'Trusted: printer, CBMC, write(2)/FdEvent stubs (any legal result), user callbacks modelled as havoc-under-invariant (rely/guarantee). Read path and the TCP classes are not covered; liveness only through the arming invariant.',
